@@ -116,6 +116,7 @@ pub fn run_ref(s: &Script, c: &Compiled) -> RefOut {
     mach.energy = MEMORY_COST_FACTOR * c.layout.pages as u64;
     let r = mach.invoke(c.entry, &[V::I64(s.amount as i64)]);
     let total = mach.energy;
+    let mach_grows: Vec<u32> = mach.grow_requests.clone();
     let mut skip = None;
     let (logs, v0_state, actions, return_value, v1_state, changed_called, modified, interrupts, recs, inexact, inexact_from, stale, unch) = match mach.host {
         Host::V0(m) => (m.sh.logs, m.state, m.actions, vec![], vec![], false, false, vec![], m.meter.recs, m.meter.inexact, m.meter.inexact_from, 0, 0),
@@ -166,6 +167,73 @@ pub fn run_ref(s: &Script, c: &Compiled) -> RefOut {
     if let (Kind::V0Receive, Outcome::Success, Ok(Some(V::I32(n)))) = (s.kind, &outcome, &r) {
         actions.truncate(*n as usize + 1);
     }
+    // memory.grow: every executed grow of n pages is announced to the host before it happens and
+    // charged n * MEMORY_COST_FACTOR (InterpreterEnergy::charge_memory_alloc). The announcement sits
+    // inside the metering segment of the grow, whose instruction costs were charged at its start, i.e.
+    // the energy at that point is the energy at the next host call (or at the end of the function).
+    let grows: Vec<u64> = mach_grows.iter().map(|n| *n as u64).collect();
+    let mut merged: Vec<CallRec> = vec![];
+    let mut g_at_raw: Vec<u64> = vec![];
+    let mut raw_to_merged: Vec<usize> = vec![];
+    let mut pending: Vec<(usize, u64)> = vec![];
+    let (mut g_acc, mut ri, mut gi) = (0u64, 0usize, 0usize);
+    let mut stopped = false;
+    for c in &s.calls {
+        if c.f == GROW {
+            if gi >= grows.len() {
+                stopped = true;
+                break;
+            }
+            let n = grows[gi];
+            gi += 1;
+            merged.push(CallRec { name: GROW.to_string(), e_before: 0, charges: vec![MEMORY_COST_FACTOR * n], trapped: false, oob: false, max_len: n, copy_charge: None });
+            pending.push((merged.len() - 1, g_acc));
+            g_acc += MEMORY_COST_FACTOR * n;
+        } else {
+            if ri >= recs.len() {
+                stopped = true;
+                break;
+            }
+            let mut rec = recs[ri].clone();
+            for (oi, gb) in pending.drain(..) {
+                merged[oi].e_before = rec.e_before + gb;
+            }
+            rec.e_before += g_acc;
+            g_at_raw.push(g_acc);
+            raw_to_merged.push(merged.len());
+            let t = rec.trapped;
+            merged.push(rec);
+            ri += 1;
+            if t {
+                stopped = true;
+                break;
+            }
+        }
+    }
+    if !stopped {
+        // epilogue calls
+        while ri < recs.len() {
+            let mut rec = recs[ri].clone();
+            for (oi, gb) in pending.drain(..) {
+                merged[oi].e_before = rec.e_before + gb;
+            }
+            rec.e_before += g_acc;
+            g_at_raw.push(g_acc);
+            raw_to_merged.push(merged.len());
+            merged.push(rec);
+            ri += 1;
+        }
+    }
+    for (oi, gb) in pending.drain(..) {
+        merged[oi].e_before = total + gb;
+    }
+    let mut interrupts = interrupts;
+    for i in interrupts.iter_mut() {
+        i.energy += g_at_raw.get(i.rec_idx).copied().unwrap_or(g_acc);
+    }
+    let inexact_from = inexact_from.map(|f| raw_to_merged.get(f).copied().unwrap_or(merged.len()));
+    let total = total + g_acc;
+    let recs = merged;
     RefOut { outcome, skip, total, exact: !inexact, logs, v0_state, actions, return_value, v1_state, changed_called, modified, interrupts, recs, inexact_from, stale_after_update: stale, used_after_unchanged: unch }
 }
 
@@ -460,6 +528,19 @@ pub fn judge(s: &Script, flags: &Flags) -> Judged {
             }
         }
     }
+    // memory.grow of a page count whose charge (n * 100, 64-bit) is far beyond a budget of 1_000_000
+    // must never succeed, however the multiplication is carried out
+    if agree {
+        if let Some(gr) = ro.recs.iter().find(|r| r.name == GROW && r.charges[0] > 1_000_000) {
+            let (e, _) = run_engine::run_measured(s, &art, 1_000_000);
+            j.evaluations += 1;
+            match e {
+                Ok(e) if e.outcome == Outcome::OutOfEnergy => j.cov.push(("grow.million_budget_ooe".into(), 1)),
+                Ok(e) => j.findings.push(Finding { kind: "grow-undercharged", class: None, detail: format!("memory.grow of {} pages is scheduled to cost {} but with a budget of 1000000 the execution ended as {:?} (remaining {:?}) instead of out-of-energy", gr.max_len, gr.charges[0], e.outcome, e.remaining) }),
+                Err(p) => j.findings.push(Finding { kind: "panic", class: None, detail: format!("the engine panicked with budget 1000000: {}", p) }),
+            }
+        }
+    }
     // (5) charge before work
     if flags.charge && agree {
         // calls with a charge, preferring large length arguments and large later charges; at most 3
@@ -604,6 +685,30 @@ fn record_cov(sh: &mut Shard, s: &Script, j: &Judged) {
     });
     if matches!(eo.outcome, Outcome::Success | Outcome::Reject(_)) {
         sh.hit(if ro.exact { "energy.exact" } else { "energy.lower_bound" });
+    }
+    for r in &ro.recs {
+        if r.name == GROW {
+            sh.hit("grow.charged");
+            if r.max_len >= 42_949_673 {
+                sh.hit("grow.charge_past_u32");
+            }
+        }
+    }
+    if !ro.interrupts.is_empty() && j.findings.is_empty() {
+        // chain-level C13: the interrupted-and-resumed execution agreed with the uninterrupted
+        // reference run on outcome, return value, logs, final state and energy
+        sh.hit(match eo.outcome {
+            Outcome::Success => "interrupt.script_agrees.success",
+            Outcome::Reject(_) => "interrupt.script_agrees.reject",
+            Outcome::Trap => "interrupt.script_agrees.trap",
+            Outcome::OutOfEnergy => "interrupt.script_agrees.out_of_energy",
+        });
+        if matches!(eo.outcome, Outcome::Success | Outcome::Reject(_)) && ro.exact {
+            sh.hit("interrupt.script_agrees.energy_exact_after_resume");
+        }
+        if eo.outcome == Outcome::Success {
+            sh.hit("interrupt.script_agrees.final_state_and_return_value");
+        }
     }
     sh.add("interrupt.resumed", ro.interrupts.len() as u64);
     for (k, i) in ro.interrupts.iter().enumerate() {
